@@ -19,7 +19,8 @@ import subprocess
 import vlib
 
 PID = "C14"
-FILES = ["theories/Properties/C14.v", "theories/Examples/C14Examples.v", "theories/Examples/C14Scanner.v"]
+FILES = ["theories/Properties/C14.v", "theories/Examples/C14Examples.v", "theories/Examples/C14Scanner.v",
+         "theories/Examples/C14Product.v"]
 
 TREE_KINDS = ("tree", "treecursor", "uniontree", "anyof")
 
@@ -123,6 +124,31 @@ def parse_case(line):
             segs.append(dict(id=ident, present=present, elems=elems, ops=tk.ops()))
         return dict(head="R", kind=kind, fw=True, segs=segs, ops=[o for sg in segs for o in sg["ops"]],
                     size=sum(len(sg["elems"]) for sg in segs), inputs=[x for sg in segs for x in sg["elems"]])
+    if head == "M":
+        curs = []
+        for _ in range(int(tk.next())):
+            kind = tk.next()
+            fw = tk.next() == "1"
+            present = tk.next() == "1"
+            mask, mask2 = int(tk.next()), int(tk.next())
+            a = tk.set()
+            b = tk.set()
+            ops = tk.ops()
+            if not present:
+                elems = []
+            elif kind == "filtered":
+                elems = [x for x in a if x in b]
+            elif kind == "union":
+                elems = sorted(set(a) | set(b))
+            elif kind == "tree":
+                elems = sorted(set(a))
+            else:
+                elems = list(a)
+            curs.append(dict(kind=kind, fw=fw, present=present, mask=mask, mask2=mask2, a=a, b=b, elems=elems, ops=ops))
+        sched = [int(x) for x in tk.ops()]
+        return dict(head="M", kind="+".join(cu["kind"] for cu in curs), fw=True, curs=curs, sched=sched,
+                    ops=[o for cu in curs for o in cu["ops"]], size=sum(len(cu["a"]) + len(cu["b"]) for cu in curs) + 8 * len(curs),
+                    inputs=[x for cu in curs for x in cu["a"] + cu["b"]])
     if head == "S":
         field = tk.next()
         variant = tk.next()
@@ -205,6 +231,17 @@ def oracle(pc):
         for k, sg in enumerate(pc["segs"]):
             out += (["/"] if k else []) + oracle_trace(sg["elems"], True, sg["ops"])
         return out
+    if pc.get("head") == "M":
+        # several cursors alive at once: after every turn each cursor shows the entry of ITS OWN solo trace (position machine over
+        # its own set) numbered by its own turns so far - "-" before its constructor, the last entry once its program is through
+        solo = [oracle_trace(cu["elems"] if cu["fw"] else list(reversed(cu["elems"])), cu["fw"], cu["ops"]) for cu in pc["curs"]]
+        turns = [0] * len(solo)
+        out = []
+        for j in pc["sched"]:
+            if 0 <= j < len(turns):
+                turns[j] += 1
+            out.append(",".join("-" if n == 0 else t[min(n, len(t)) - 1] for t, n in zip(solo, turns)))
+        return out
     if pc.get("head") == "I":
         if pc["query"]:
             # QueryWithCursorC: the page in the direction of the scan, then the number of matches
@@ -237,6 +274,18 @@ def oracle(pc):
     return out
 
 
+def multi_deviation(pc, impl_t, spec_t, j):
+    """M lines: (index of the first cursor whose view deviates at turn j, what it shows, what it should show)"""
+    vi = impl_t[j].split(",") if j < len(impl_t) else []
+    vs = spec_t[j].split(",") if j < len(spec_t) else []
+    for i in range(max(len(vi), len(vs))):
+        a = vi[i] if i < len(vi) else "?"
+        b = vs[i] if i < len(vs) else "?"
+        if a != b:
+            return i, a, b
+    return 0, "?", "?"
+
+
 def classify(pc, impl_t, spec_t):
     """stable signature of the class of failure"""
     j = next((k for k in range(min(len(impl_t), len(spec_t))) if impl_t[k] != spec_t[k]), min(len(impl_t), len(spec_t)))
@@ -247,6 +296,17 @@ def classify(pc, impl_t, spec_t):
         fam = "composite" if "." in pc["field"] else "setsym"
         what = {"H": "hang", "P": "panic", "E": "error"}.get(impl_t[0] if impl_t else "?", "rows")
         return "C14:scan-%s-%s" % (fam, what), j
+    if pc.get("head") == "M":
+        i, ti, ts = multi_deviation(pc, impl_t, spec_t, j)
+        cu = pc["curs"][i] if i < len(pc["curs"]) else pc["curs"][0]
+        others = any(x != i for x in pc["sched"][:j + 1])
+        if ti == "P":
+            return "C14:%s-%s" % (cu["kind"], "interference-panic" if others else "panic"), j
+        if others:
+            # another cursor of the family has been opened / moved: this cursor no longer shows what it shows alone
+            return "C14:%s-interference" % cu["kind"], j
+        own = cu["ops"][:max(0, pc["sched"][:j + 1].count(i) - 1)]
+        return "C14:%s-%s" % (cu["kind"], "seek" if any(o != "N" for o in own) else "enumerate"), j
     if pc.get("head") == "R":
         seg = impl_t[:j].count("/") if j <= len(impl_t) else 0
         if seg >= 1:
@@ -438,6 +498,22 @@ def main(argv):
                         "query result read as a" if pc["query"] else "seekable", dec(pc["elems"]),
                         " ".join(pc["ops"]) or "(none)", j, impl.split()[j] if j < len(impl.split()) else "?",
                         sp.split()[j] if j < len(sp.split()) else "?", impl, sp))
+        elif pc.get("head") == "M":
+            i, ti, ts = multi_deviation(pc, impl.split(), sp.split(), j)
+            site = {"gs-tags": "Store.GetSymbol(\"tags\").(RuntimeEntitySetSymbol).OpenCursor", "gs-grps": "Store.GetSymbol(\"grps\") [link set] .OpenCursor",
+                    "setsym": "tagsSymbol.GetRuntimeSymbol().OpenCursor", "setsymraw": "tagsSymbol.GetRuntimeSymbol().OpenCursor (raw Seek)",
+                    "ids": "IterateIds", "tree": "TreeSet.ToCursor", "union": "NewUnionSetCursor", "filtered": "NewFilteredCursor"}
+            desc = "; ".join("cursor #%d = %s%s %s over %s, program [%s]" % (
+                n, site.get(cu["kind"], cu["kind"]), "" if cu["fw"] else " (reverse)",
+                "on an entity that does not exist" if cu["mask"] < 0 else "on row/bucket %d" % cu["mask"], dec(cu["elems"]),
+                " ".join(cu["ops"])) for n, cu in enumerate(pc["curs"]))
+            turn = pc["sched"][j] if j < len(pc["sched"]) else -1
+            what = ("%d cursors alive at once in one read transaction (buckets not modified): %s. Turns (cursor index: first turn = constructor, later turns "
+                    "= next operation of its program) %s: after turn #%d (of cursor #%d) cursor #%d shows %s, alone it shows %s - %s. "
+                    "Views after every turn %s, demanded %s" % (
+                        len(pc["curs"]), desc, " ".join(map(str, pc["sched"])), j + 1, turn, i, ti, ts,
+                        "it was moved by the turn of ANOTHER cursor: the two hand-outs share their position" if turn != i
+                        else "its own operation continued from a position another cursor left", impl, sp))
         elif pc.get("head") == "S":
             rows = ", ".join("%s:%s" % (r[0].decode("latin-1"), {0: "absent", 2: "no bucket"}.get(r[1], dec(r[2]))) for r in pc["rows"])
             got = {"H": "did not return within 10 s (the set cursor of a row never exhausts)", "P": "panicked", "E": "failed"}.get(
